@@ -1,1 +1,85 @@
-//! reference model `pct_decode` — not built yet.
+//! Reference for C10 / C09: partial percent-decoding.
+//!
+//! Rule (from the `Quoter` documentation): scanning left to right, every `%XY` with two hex digits
+//! (either case) whose value is **not** a protected ASCII byte is replaced by that byte; everything
+//! else — protected escapes, incomplete or invalid escapes, plain bytes — is copied unchanged.  The
+//! output is not rescanned (`%2541` with `%` unprotected gives `%41`).
+
+/// The protected set used for request paths (`Url::new`): `%`, `/`, `+` stay encoded.
+pub const PATH_PROTECTED: &[u8] = b"%/+";
+
+fn hexval(b: u8) -> Option<u8> {
+    match b {
+        b'0'..=b'9' => Some(b - b'0'),
+        b'a'..=b'f' => Some(b - b'a' + 10),
+        b'A'..=b'F' => Some(b - b'A' + 10),
+        _ => None,
+    }
+}
+
+#[derive(Clone, Debug, Default, PartialEq, Eq)]
+pub struct Decoded {
+    pub out: Vec<u8>,
+    /// escapes replaced
+    pub decoded: usize,
+    /// valid escapes left alone because their value is protected
+    pub kept_protected: usize,
+    /// `%` not followed by two hex digits
+    pub invalid: usize,
+}
+
+pub fn decode(input: &[u8], protected: &[u8]) -> Decoded {
+    let mut d = Decoded { out: Vec::with_capacity(input.len()), ..Default::default() };
+    let mut i = 0;
+    while i < input.len() {
+        if input[i] == b'%' {
+            let v = if i + 2 < input.len() {
+                match (hexval(input[i + 1]), hexval(input[i + 2])) {
+                    (Some(h), Some(l)) => Some(h * 16 + l),
+                    _ => None,
+                }
+            } else {
+                None
+            };
+            match v {
+                Some(b) if b < 128 && protected.contains(&b) => d.kept_protected += 1,
+                Some(b) => {
+                    d.out.push(b);
+                    d.decoded += 1;
+                    i += 3;
+                    continue;
+                }
+                None => d.invalid += 1,
+            }
+        }
+        d.out.push(input[i]);
+        i += 1;
+    }
+    d
+}
+
+/// What `Quoter::requote` must return: `None` exactly when nothing was decoded.
+pub fn requote(input: &[u8], protected: &[u8]) -> Option<Vec<u8>> {
+    let d = decode(input, protected);
+    if d.decoded == 0 {
+        None
+    } else {
+        Some(d.out)
+    }
+}
+
+/// The routing view of a request path: partially decoded, then made valid UTF-8 lossily.
+pub fn path_view(raw: &str) -> String {
+    match requote(raw.as_bytes(), PATH_PROTECTED) {
+        Some(b) => String::from_utf8_lossy(&b).into_owned(),
+        None => raw.to_string(),
+    }
+}
+
+/// Full decoding (no protected bytes), lossy: what the path deserializer hands to `String` fields.
+pub fn full_view(raw: &str) -> String {
+    match requote(raw.as_bytes(), b"") {
+        Some(b) => String::from_utf8_lossy(&b).into_owned(),
+        None => raw.to_string(),
+    }
+}
